@@ -437,10 +437,13 @@ def call(ex, st, fr, callee, last, args, argops, dest):
         return r
 
     # default trait methods of core implemented over local impls
-    m = re.match(r"^<(\w+) as (?:std::cmp::)?PartialOrd(?:<(.*)>)?>::(lt|le|gt|ge)$", c)
+    m = re.match(r"^<(&*\w+) as (?:std::cmp::)?PartialOrd(?:<(.*)>)?>::(lt|le|gt|ge)$", c)
     if m:
-        selfty = m.group(1)
-        rhs = m.group(2) or selfty
+        nref = len(m.group(1)) - len(m.group(1).lstrip("&"))
+        selfty = m.group(1).lstrip("&")
+        rhs = (m.group(2) or m.group(1)).lstrip("&")
+        for _ in range(nref):
+            args = [ex.read_ref(st, a) for a in args]
         cands = [f for f in ex.prog.by_last.get("partial_cmp", [])
                  if [norm_type(p[1]) for p in f.params] == ["&" + selfty, "&" + rhs]]
         if len(cands) == 1:
